@@ -120,7 +120,7 @@ def find_function(m, name):
 def find_loops(m, lo, hi):
     """loops inside m[lo:hi] in textual order of their keyword:
     list of (kind, insertion_index) ; insertion index = just after the ')' that
-    closes the loop header (for/while) or the tail condition (do-while)"""
+    closes the loop header (for/while); just after the keyword for do-while"""
     loops = []
     do_tails = set()
     for mo in re.finditer(r"\b(for|while|do)\b", m[lo:hi]):
@@ -143,9 +143,8 @@ def find_loops(m, lo, hi):
             if not m.startswith("while", w):
                 raise InjectError("do-loop without while tail at %d" % pos)
             do_tails.add(w)
-            p = _skip_ws(m, w + 5)
-            k = _match(m, p, "(", ")")
-            loops.append(("do", k + 1))
+            # CBMC's grammar takes the contract of a do-while right after 'do'
+            loops.append(("do", pos + 2))
     return loops
 
 
